@@ -102,7 +102,7 @@ func TestVerifC46Routing(t *testing.T) {
 		doms = append(doms, "*"+b, b+"*")
 	}
 	for _, h := range hosts {
-		if !thorough && h != "a" && h != "ab" && h != "ba" && h != "aab" && h != "aba" && h != "bb" {
+		if !thorough && h != "ab" && h != "ba" && h != "aab" {
 			continue
 		}
 		for _, d1 := range doms {
